@@ -344,6 +344,11 @@ econf_err econf_readConfigWithCallback(econf_file **key_file,
   econf_err ret = ECONF_SUCCESS;
   int init_keyfile = 0;
 
+  if (key_file == NULL ||
+      ((config_name == NULL || strlen(config_name) == 0) &&
+       (project == NULL || strlen(project) == 0)))
+    return ECONF_ARGUMENT_IS_NULL_VALUE;
+
   if (*key_file == NULL) {
     if ((ret = econf_newKeyFile_with_options(key_file, "")) != ECONF_SUCCESS)
       return ret;
